@@ -9,6 +9,7 @@ def paramsOf : String → Option Params
   | "rr" | "chainrr" => some { hasLoop := true, emits := .remoteBound }
   | "sr" => some { hasLoop := true, emits := .localBound }
   | "pli" | "chainpli" => some { hasLoop := true, emits := .remoteBound, immediateOnBind := true }
+  | "pli0" => some { hasLoop := true, interval := 0, emits := .remoteBound, immediateOnBind := true }
   | "nackgen" => some { hasLoop := true, emits := .remoteGap }
   | "twcc" => some { hasLoop := true, readHandoff := true }
   | "rfc8888" => some { hasLoop := true, readHandoff := true }
